@@ -131,9 +131,9 @@ theorem cuba_w_in (f : List (String × Val)) (dt : DType) (hdt : dt.kind = .floa
   | none =>
     constructor
     · simp [accepted, postInit, h1, h2, h3, h4, h5, hw, assertSameShape, getShape, Val.shape?, bind, Except.bind, pure,
-        Except.pure, List.mapM_cons, List.mapM_nil, materialiseWIn, hb, hk]
+        Except.pure, List.mapM_cons, List.mapM_nil, materialiseWIn, materialiseWInShape, hb, hk]
     · simp [postInit, h1, h2, h3, h4, h5, hw, assertSameShape, getShape, Val.shape?, bind, Except.bind, pure,
-        Except.pure, List.mapM_cons, List.mapM_nil, materialiseWIn, hb, hk]
+        Except.pure, List.mapM_cons, List.mapM_nil, materialiseWIn, materialiseWInShape, hb, hk]
   | some out =>
     have hlook : ∀ (v : Val) (l : List (String × Val)), lookup "w_in" (Py.insert "w_in" v l) = some v := by
       intro v l
@@ -150,20 +150,20 @@ theorem cuba_w_in (f : List (String × Val)) (dt : DType) (hdt : dt.kind = .floa
       | nil =>
         constructor
         · simp [accepted] ; simp [postInit, h1, h2, h3, h4, h5, hw, assertSameShape, getShape, Val.shape?, bind, Except.bind, pure,
-          Except.pure, List.mapM_cons, List.mapM_nil, materialiseWIn, hb, hk, throw, throwThe, MonadExceptOf.throw]
+          Except.pure, List.mapM_cons, List.mapM_nil, materialiseWIn, materialiseWInShape, hb, hk, throw, throwThe, MonadExceptOf.throw]
         · intro n hn
           simp [postInit, h1, h2, h3, h4, h5, hw, assertSameShape, getShape, Val.shape?, bind, Except.bind, pure,
-          Except.pure, List.mapM_cons, List.mapM_nil, materialiseWIn, hb, hk, throw, throwThe, MonadExceptOf.throw] at hn
+          Except.pure, List.mapM_cons, List.mapM_nil, materialiseWIn, materialiseWInShape, hb, hk, throw, throwThe, MonadExceptOf.throw] at hn
           subst hn
           refine ⟨typesDefined_elementwise _ _ _ _, ?_⟩
           simp [Node.field?, Node.fields, hlook, Val.shape?]
       | cons x xs =>
         constructor
         · simp [accepted] ; simp [postInit, h1, h2, h3, h4, h5, hw, assertSameShape, getShape, Val.shape?, bind, Except.bind, pure,
-          Except.pure, List.mapM_cons, List.mapM_nil, materialiseWIn, hb, hk, throw, throwThe, MonadExceptOf.throw]
+          Except.pure, List.mapM_cons, List.mapM_nil, materialiseWIn, materialiseWInShape, hb, hk, throw, throwThe, MonadExceptOf.throw]
         · intro n hn
           simp [postInit, h1, h2, h3, h4, h5, hw, assertSameShape, getShape, Val.shape?, bind, Except.bind, pure,
-          Except.pure, List.mapM_cons, List.mapM_nil, materialiseWIn, hb, hk, throw, throwThe, MonadExceptOf.throw] at hn
+          Except.pure, List.mapM_cons, List.mapM_nil, materialiseWIn, materialiseWInShape, hb, hk, throw, throwThe, MonadExceptOf.throw] at hn
           subst hn
           refine ⟨typesDefined_elementwise _ _ _ _, ?_⟩
           simp [Node.field?, Node.fields, hlook, Val.shape?]
@@ -172,17 +172,17 @@ theorem cuba_w_in (f : List (String × Val)) (dt : DType) (hdt : dt.kind = .floa
       | nil =>
         constructor
         · simp [accepted] ; simp (config := {contextual := true}) [postInit, h1, h2, h3, h4, h5, hw, assertSameShape, getShape, Val.shape?, bind, Except.bind, pure,
-          Except.pure, List.mapM_cons, List.mapM_nil, materialiseWIn, hb, hk, throw, throwThe, MonadExceptOf.throw, ho, ho']
+          Except.pure, List.mapM_cons, List.mapM_nil, materialiseWIn, materialiseWInShape, hb, hk, throw, throwThe, MonadExceptOf.throw, ho, ho']
         · intro n hn
           simp [postInit, h1, h2, h3, h4, h5, hw, assertSameShape, getShape, Val.shape?, bind, Except.bind, pure,
-          Except.pure, List.mapM_cons, List.mapM_nil, materialiseWIn, hb, hk, throw, throwThe, MonadExceptOf.throw, ho, ho'] at hn
+          Except.pure, List.mapM_cons, List.mapM_nil, materialiseWIn, materialiseWInShape, hb, hk, throw, throwThe, MonadExceptOf.throw, ho, ho'] at hn
       | cons x xs =>
         constructor
         · simp [accepted] ; simp [postInit, h1, h2, h3, h4, h5, hw, assertSameShape, getShape, Val.shape?, bind, Except.bind, pure,
-          Except.pure, List.mapM_cons, List.mapM_nil, materialiseWIn, hb, hk, throw, throwThe, MonadExceptOf.throw, ho, ho']
+          Except.pure, List.mapM_cons, List.mapM_nil, materialiseWIn, materialiseWInShape, hb, hk, throw, throwThe, MonadExceptOf.throw, ho, ho']
         · intro n hn
           simp [postInit, h1, h2, h3, h4, h5, hw, assertSameShape, getShape, Val.shape?, bind, Except.bind, pure,
-          Except.pure, List.mapM_cons, List.mapM_nil, materialiseWIn, hb, hk, throw, throwThe, MonadExceptOf.throw, ho, ho'] at hn
+          Except.pure, List.mapM_cons, List.mapM_nil, materialiseWIn, materialiseWInShape, hb, hk, throw, throwThe, MonadExceptOf.throw, ho, ho'] at hn
 
 /-- Non-vacuity: LIF with shapes (2,3),(2,3),(2,3),(2,3) is accepted; with one (3,2) it is not. -/
 example : accepted (postInit "LIF" [("tau", .arr DType.float64 [2, 3] []), ("r", .arr DType.float64 [2, 3] []),
